@@ -100,7 +100,18 @@ class _Linalg:
         s = SReal(0)
         for e in x.flat:
             s = s + _abs2(e)
-        return s.sqrt()
+        r = s.sqrt()
+        c = cur()
+        if c.norm_positive and not r.is_const():
+            single = r.p.monomial_single()
+            if single is not None:
+                for a, _ in single[1]:
+                    at = c.atoms[a]
+                    if not at.nonzero:
+                        at.nonzero = True
+                        c.add(at.z > 0)
+                        c.notes.append('norm assumed non-zero (genericity)')
+        return r
 
     def inv(self, a):
         if not (active() and is_sym(a)):
